@@ -474,6 +474,11 @@ func c07DrawOpenChans(min, max int) *c07OpenChans {
 			Db:             st,
 		}
 		ch.RemoteCommitment.LocalHtlcIndex = remoteIdx
+		// channel type (zero-conf / scid-alias bits included) and the confirmed
+		// id of a zero-conf channel are arbitrary: links and keystones are keyed
+		// by ShortChanID() (the alias for a zero-conf channel) whatever they are
+		ch.ChanType = chanstate.ChannelType(vU64(name + ".chantype"))
+		ch.SetConfirmedScidForStore(lnwire.NewShortChanIDFromInt(vU64(name + ".confirmedscid")))
 		st.tips = append(st.tips, c07Tip{ch: ch, has: hasTip, fail: tipFail, idx: tipIdx})
 		start := remoteIdx
 		if hasTip {
